@@ -4,7 +4,7 @@
 usage: alt_sweep.py <name>[:<check id>] ...   |   alt_sweep.py --missing   (all seeds without a 'caught' verdict)"""
 import json, os, re, subprocess, sys, glob, time
 
-SKIP = {"C02-m2", "C07-m2", "C16-m2", "C03-m1", "C11-m1", "C18-m2", "C05-r4m3", "C06-r4m2"}  # neutralised / superseded by fix: commits (DESIGN 9.6)
+SKIP = {"C02-m2", "C07-m2", "C16-m2", "C03-m1", "C11-m1", "C18-m2", "C05-r4m3", "C06-r4m2", "C05-r5m3"}  # neutralised / superseded by fix: commits (DESIGN 9.6)
 
 
 def verdict_of(meta, pid):
